@@ -71,6 +71,58 @@ class C16(Prop):
                         env[eff + nm] = rng.choice(VALUES)
                 case["more"] = more
                 case["deferred"] = rng.random() < 0.6
+            full = t
+            for lv in case.get("more", []):
+                full = merge_py(full, gt.unjson(lv))
+            # 25%: runtime modifications / deletions made before the load (disjoint paths)
+            if rng.random() < 0.25:
+                leaves = [(p_, v) for p_, v in gt.leaf_paths(full) if p_]
+                rng.shuffle(leaves)
+                mods, dels, used = [], [], []
+
+                def free(p_):
+                    return not any(p_[:len(q)] == q or q[:len(p_)] == p_ for q in used)
+                for p_, v in leaves[:3]:
+                    if not free(p_):
+                        continue
+                    used.append(p_)
+                    if rng.random() < 0.5 and not isinstance(v, (list, tuple)):
+                        mods.append([list(p_), gt.jsonable(same_kind(rng, v))])
+                    else:
+                        dels.append(list(p_))
+                if rng.random() < 0.4:
+                    k = rng.choice(["zz", "new_key", "q"])
+                    if k not in full:
+                        mods.append([[k], gt.jsonable(gt.leaf(rng, "bis"))])
+                        if rng.random() < 0.7:
+                            env[eff + k.upper()] = rng.choice(VALUES)
+                case["mods"], case["dels"] = mods, dels
+            # 25%: an earlier life of the same Config object: another collection level and
+            # another environment were loaded (and load_shell_env() called) before
+            if rng.random() < 0.25:
+                hist = []
+                for _ in range(rng.randint(1, 2)):
+                    hc = gt.jsonable(overlay(rng, full))
+                    henv = {}
+                    for p_, _v in gt.leaf_paths(gt.unjson(hc)):
+                        if rng.random() < 0.7:
+                            henv[eff + "_".join(p_).upper()] = rng.choice(["1", "x", "0", ""])
+                    hist.append({"coll": hc, "env": henv})
+                    # the *final* environment keeps naming what history defined (must be ignored then)
+                    for k_, v_ in henv.items():
+                        if rng.random() < 0.6:
+                            env.setdefault(k_, v_)
+                case["history"] = hist
+            # prefix given through `prefix` only (env_prefix unset) in 15% of cases
+            if prefix and rng.random() < 0.15:
+                case["prefix_attr"] = "prefix"
+            # all-lower-case twins and whitespace-bearing values
+            for p_, old in list(gt.leaf_paths(full))[:2]:
+                if rng.random() < 0.15:
+                    env[(eff + "_".join(p_).upper()).lower()] = "lower"
+                if rng.random() < 0.2 and not (isinstance(old, int) and not isinstance(old, bool)) \
+                        and not isinstance(old, (list, tuple)):
+                    env[eff + "_".join(p_).upper()] = rng.choice([" ", " x", "x ", "\t", " 0", "0 "])
             yield case
 
     def enumerate_small(self, tier):
@@ -95,29 +147,55 @@ class C16(Prop):
         from invoke.config import Config
         tree = gt.unjson(case["tree"])
         prefix = case["prefix"]
+        if case.get("prefix_attr") == "prefix":
+            class Cfg(Config):
+                pass
+            Cfg.prefix = prefix
+            Cfg.global_defaults = staticmethod(lambda: {})
+        else:
+            class Cfg(Config):
+                env_prefix = prefix
 
-        class Cfg(Config):
-            env_prefix = prefix
-
-            @staticmethod
-            def global_defaults():
-                return {}
+                @staticmethod
+                def global_defaults():
+                    return {}
         saved = dict(os.environ)
         try:
             os.environ.clear()
-            os.environ.update(case["env"])
             cfg = Cfg(defaults=tree, lazy=True)
+            for h in case.get("history", []):
+                os.environ.clear()
+                os.environ.update(h["env"])
+                try:
+                    cfg.load_collection(gt.unjson(h["coll"]))
+                    cfg.load_shell_env()
+                except Exception:
+                    pass
+            os.environ.clear()
+            os.environ.update(case["env"])
             try:
                 more = [gt.unjson(m) for m in case.get("more", [])]
                 merge_now = not case.get("deferred", False)
-                if len(more) >= 1:
-                    cfg.load_collection(more[0], merge=merge_now)
+                if len(more) >= 1 or case.get("history"):
+                    cfg.load_collection(more[0] if more else {}, merge=merge_now)
                 if len(more) >= 2:
                     cfg.load_overrides(more[1], merge=merge_now)
+                if case.get("mods") or case.get("dels"):
+                    cfg.merge()
+                for pth, val in case.get("mods", []):
+                    obj = cfg
+                    for k in pth[:-1]:
+                        obj = obj[k]
+                    obj[pth[-1]] = gt.unjson(val)
+                for pth in case.get("dels", []):
+                    obj = cfg
+                    for k in pth[:-1]:
+                        obj = obj[k]
+                    del obj[pth[-1]]
                 cfg.load_shell_env()
             except Exception as e:
                 return {"err": type(e).__name__}
-            return {"ok": gt.jsonable(gt.deep_view(cfg._env))}
+            return {"ok": gt.jsonable(gt.deep_view(cfg._env)), "view": gt.jsonable(gt.deep_view(cfg))}
         finally:
             os.environ.clear()
             os.environ.update(saved)
@@ -126,7 +204,21 @@ class C16(Prop):
         env = ct.lst([ct.pair(ct.s(k), ct.s(v)) for k, v in case["env"].items()])
         o = ct.result(obs, lambda d: ct.tree(gt.unjson(d)))
         more = ct.lst([ct.tree(gt.unjson(m)) for m in case.get("more", [])])
-        return "(mk %s %s %s %s %s)" % (ct.tree(gt.unjson(case["tree"])), more, ct.s(case["prefix"]), env, o)
+        mods = {}
+        for pth, val in case.get("mods", []):
+            d = mods
+            for k in pth[:-1]:
+                d = d.setdefault(k, {})
+            d[pth[-1]] = gt.unjson(val)
+        dels = {}
+        for pth in case.get("dels", []):
+            d = dels
+            for k in pth[:-1]:
+                d = d.setdefault(k, {})
+            d[pth[-1]] = None
+        view = ct.opt(ct.tree(gt.unjson(obs["view"]))) if "view" in obs else "None"
+        return "(mk %s %s %s %s %s %s %s %s)" % (ct.tree(gt.unjson(case["tree"])), more, ct.tree(mods), ct.tree(dels),
+                                               ct.s(case["prefix"]), env, o, view)
 
     def nontrivial(self, case, obs):
         t = gt.unjson(case["tree"])
@@ -137,7 +229,9 @@ class C16(Prop):
         return len(set(names)) < len(names) or any(nm in case["env"] for nm in names)
 
     def classify(self, case, obs):
-        lv = "levels:%d%s " % (1 + len(case.get("more", [])), "(deferred)" if case.get("deferred") else "")
+        lv = "levels:%d%s%s%s " % (1 + len(case.get("more", [])), "(deferred)" if case.get("deferred") else "",
+                                   "+edits" if case.get("mods") or case.get("dels") else "",
+                                   "+history" if case.get("history") else "")
         return lv + ("err:" + obs["err"] if "err" in obs else
                      ("applied:%d" % min(3, len(list(gt.leaf_paths(gt.unjson(obs["ok"])))))))
 
@@ -148,6 +242,14 @@ class C16(Prop):
             e2 = dict(env)
             del e2[k]
             yield dict(case, env=e2)
+        for key in ("history", "mods", "dels"):
+            lst_ = case.get(key, [])
+            for i in range(len(lst_)):
+                yield dict(case, **{key: lst_[:i] + lst_[i + 1:]})
+        if case.get("prefix_attr"):
+            yield {k: v for k, v in case.items() if k != "prefix_attr"}
+        if case.get("deferred"):
+            yield dict(case, deferred=False)
         more = case.get("more", [])
         for i in range(len(more)):
             yield dict(case, more=more[:i] + more[i + 1:])
@@ -165,12 +267,27 @@ class C16(Prop):
             yield dict(case, env=env)
 
 
+def same_kind(rng, v):
+    if v is None:
+        return rng.choice([None, "set"])
+    if isinstance(v, bool):
+        return not v
+    if isinstance(v, int):
+        return v + 10
+    if isinstance(v, str):
+        return v + "~"
+    return v
+
+
 def real_defaults():
     from invoke.config import Config
     d = gt.deep_view(Config.global_defaults())
     d.pop("runners", None)
     d["run"]["echo_format"] = "{command}"
     return d
+
+
+SECTION_KEYS = ("foo", "bar", "c", "A")
 
 
 def overlay(rng, base):
@@ -191,9 +308,14 @@ def overlay(rng, base):
             out[k] = v + "!"
         else:
             out[k] = v
+    # new keys: whether a key is a section is a function of its name, so that levels drawn
+    # independently (and earlier lives of the same Config) stay type-consistent with each other
     for k in rng.sample(gt.KEYS, rng.randint(0, 2)):
         if k not in base:
-            out[k] = gt.leaf(rng, "nbis") if rng.random() < 0.7 else {rng.choice(gt.KEYS): gt.leaf(rng, "bis")}
+            if k in SECTION_KEYS:
+                out[k] = {rng.choice([x for x in gt.KEYS if x not in SECTION_KEYS]): gt.leaf(rng, "bis")}
+            else:
+                out[k] = gt.leaf(rng, "nbis")
     return out
 
 
